@@ -392,6 +392,24 @@ var srcSeeds = []string{
 	`x = y = z = 0x1F + 017 + 1e3 + .5 + "A\x41\n\
 "`,
 	`do x++; while (x < 5) with (o) { a } if (a) b; else c; debugger; return`,
+	// strings held as UTF-16 code units inside the engine (String.fromCharCode results) in every construct
+	`var s = String.fromCharCode(97), t = String.fromCharCode(97), u = String.fromCharCode(0xD800); switch (s) { case t: 1; break; case u: 2; default: 3 }`,
+	`var s = String.fromCharCode(98), t = String.fromCharCode(98), o = {}; o[s] = 1; [s === t, s == t, s != t, s < t, s <= t, s + t, s in o, typeof s, !s, -s, s ? 1 : 2, s && t, s || t, delete o[s], s instanceof Object].join()`,
+	`var s = String.fromCharCode(99), o = {}; o[s] = s; for (var k in o) { k === s } with (o) { c } var f = {valueOf: function(){ return s }}; f + f; f < f; f == s; [s, s].sort(); [s].indexOf(s); s.localeCompare(s); ({})[s]; JSON.stringify(o); new RegExp(s).test(s); s.replace(s, s); s.split(s); parseInt(s); Number(s); new Date(s); eval(s); new Function(s, s)`,
+	`var u = String.fromCharCode(0xD800), v = String.fromCharCode(0xDC00); switch (u + v) { case u + v: 1 } switch (u) { case v: 2; case u: 3 } u + v === v + u; ({})[u + v]; (u + v).length`,
+	// object literals naming one key several times, then every observer
+	`var o = {a: 1, a: 2, '1': 3, 1: 4, b: 5, a: 6}; Object.keys(o) + Object.getOwnPropertyNames(o) + JSON.stringify(o); for (var k in o) k; delete o.a; delete o[1]; delete o.a; Object.keys(o) + ""; o.a = 1; delete o.b; Object.freeze(o); Object.keys(o).length`,
+	`var o = {get a(){ return 1 }, set a(v){}, b: 1, b: 2}; delete o.b; delete o.a; Object.keys(o).length`,
+	// escapes cut short inside string literals, identifiers and regexp literals
+	"\"\\uD83D\\uDE0\"", "\"\\uD83D\\u\"", "'\\uDC00\\u1'", "({\"\\uD83D\\uDE\": 1})", "\"\\x4\"", "\"\\u12\"", "'\\uD800\\uDC'", "\"\\uD83D\\x\"", "/\\uD83D\\uDE0/", "a\\uD83D\\u = 1", "\"\\uDBFF\\uDFFF\\uD800\\u\"",
+	// a source map reference cut short on the last line
+	"var answer = 6 * 7; answer\n//# sourceMappingURL=data:application/json",
+	"1\n//# sourceMappingURL=data:application/json;base64",
+	"1\n//# sourceMappingURL=data:application/json;base64,",
+	"1\n//# sourceMappingURL=data:application/json;base64,e30=",
+	"1\n//# sourceMappingURL=data:application/json;base64,!!!!",
+	"1\n//# sourceMappingURL=",
+	"1\n//@ sourceMappingURL=data:,",
 }
 
 func genC02(c *h.Ctx) {
@@ -465,6 +483,11 @@ func genC02(c *h.Ctx) {
 		c.Add("src "+hex.EncodeToString([]byte(p)), "source:audit-probe")
 		c.Add("eval "+hex.EncodeToString([]byte(p)), "source:audit-probe")
 	}
+	for _, seed := range srcSeeds {
+		for _, k := range kinds {
+			c.Add(k+" "+hex.EncodeToString([]byte(seed)), "source:"+k)
+		}
+	}
 	var corpus []string
 	corpus = append(corpus, srcSeeds...)
 	corpus = append(corpus, auditProbes...)
@@ -505,7 +528,7 @@ func genC02(c *h.Ctx) {
 				b[r.Intn(len(b))] = byte(r.U64())
 			}
 		case 3: // token soup
-			toks := []string{"&^", "&^=", "=>", "...", "`", "\\u", "\\u{1F600}", "/*", "//", "'", "\"", "/", "/=", "++", "--", "<<<", ">>>>=", "0x", "0b1", "1e", "1.e+", "..", "?.", "#", "@", "\x00", "\xff\xfe", "\u2028", "\ufeff", "for(", "function", "{", "}", "(", ")", "[", "]", ";", "var", "=", "a", "1", ",", ":", "case", "new", "this", "in", "instanceof", "typeof", "delete", "void", "let", "class", "enum", "yield", "get", "set"}
+			toks := []string{"&^", "&^=", "=>", "...", "`", "\\u", "\\u{1F600}", "/*", "//", "'", "\"", "/", "/=", "++", "--", "<<<", ">>>>=", "0x", "0b1", "1e", "1.e+", "..", "?.", "#", "@", "\x00", "\xff\xfe", "\u2028", "\ufeff", "\\uD83D", "\\uDE0", "\\uD83D\\u", "\\x4", "\\u{", "//# sourceMappingURL=data:application/json", "\n//# sourceMappingURL=data:application/json;base64,", "String.fromCharCode(97)", "switch(", "case ", "a:1,a:2,", "for(", "function", "{", "}", "(", ")", "[", "]", ";", "var", "=", "a", "1", ",", ":", "case", "new", "this", "in", "instanceof", "typeof", "delete", "void", "let", "class", "enum", "yield", "get", "set"}
 			var sb strings.Builder
 			for j := 0; j < 1+r.Intn(10); j++ {
 				sb.WriteString(toks[r.Intn(len(toks))])
